@@ -316,8 +316,9 @@ impl std::str::FromStr for Deb822 {
                                     // ignore comments
                                     tokens.next();
                                 }
-                                Some((SyntaxKind::NEWLINE, n)) => {
-                                    current_paragraph.last_mut().unwrap().value.push_str(n);
+                                Some((SyntaxKind::NEWLINE, _)) => {
+                                    // Lines are joined with '\n' whatever the line terminator was
+                                    current_paragraph.last_mut().unwrap().value.push('\n');
                                     tokens.next();
                                     break;
                                 }
